@@ -102,9 +102,9 @@ def get_or_formula(relation: Relation) -> str:
 def get_alternative_formula(relation: Relation) -> str:
     formula = []
     parent = relation.parent.name
-    children = {child.name for child in relation.children}
+    children = [child.name for child in relation.children]
     for child in children:
-        children_negatives = children - {child}
+        children_negatives = [ch for ch in children if ch != child]
         children_neg_str = [f"{PLWriter.LogicConnective.NOT} " + ch for ch in children_negatives]
         formula.append(f'{child} {PLWriter.LogicConnective.EQUIVALENCE} '
                        f'({f" {PLWriter.LogicConnective.AND} ".join(children_neg_str)} '
@@ -115,9 +115,9 @@ def get_alternative_formula(relation: Relation) -> str:
 def get_mutex_formula(relation: Relation) -> str:
     formula = []
     parent = relation.parent.name
-    children = {child.name for child in relation.children}
+    children = [child.name for child in relation.children]
     for child in children:
-        children_negatives = children - {child}
+        children_negatives = [cn for cn in children if cn != child]
         children_neg_str = [f"{PLWriter.LogicConnective.NOT} " + cn for cn in children_negatives]
         formula.append(f'{child} {PLWriter.LogicConnective.EQUIVALENCE} '
                        f'({f" {PLWriter.LogicConnective.AND} ".join(children_neg_str)} '
@@ -131,12 +131,12 @@ def get_mutex_formula(relation: Relation) -> str:
 
 def get_cardinality_formula(relation: Relation) -> str:
     parent = relation.parent.name
-    children = {child.name for child in relation.children}
+    children = [child.name for child in relation.children]
     or_ctc = []
     for k in range(relation.card_min, relation.card_max + 1):
         combi_k = list(itertools.combinations(children, k))
         for positives in combi_k:
-            negatives = children - set(positives)
+            negatives = [child for child in children if child not in positives]
             negatives_str = [f"{PLWriter.LogicConnective.NOT} " + f for f in negatives]
             positives_and_ctc = f'{f" {PLWriter.LogicConnective.AND} ".join(positives)}'
             negatives_and_ctc = f'{f" {PLWriter.LogicConnective.AND} ".join(negatives_str)}'
